@@ -1,0 +1,23 @@
+/**
+@file
+Verification hook points.  With IGRIS_VERIF undefined (the default) every
+macro below expands to nothing and this header adds no code.  With
+-DIGRIS_VERIF the harness supplies igris_verif_point(), which records one
+event per synchronisation step (kind, object address, value).
+*/
+#ifndef IGRIS_UTIL_VERIF_HOOK_H
+#define IGRIS_UTIL_VERIF_HOOK_H
+
+#ifdef IGRIS_VERIF
+#ifdef __cplusplus
+extern "C"
+#endif
+    void
+    igris_verif_point(const char *kind, const void *obj, long val);
+#define IGRIS_VERIF_POINT(kind, obj, val)                                      \
+    igris_verif_point((kind), (const void *)(obj), (long)(val))
+#else
+#define IGRIS_VERIF_POINT(kind, obj, val) ((void)0)
+#endif
+
+#endif
